@@ -74,6 +74,28 @@
 (* TrackArg      keep the caller's array of the last update_model call in  *)
 (*               the state (arg) and allow UpdateSame = update_model with  *)
 (*               that same array object again                              *)
+(* FitEntry      "recompile"         the code: Optimizer.fit() -- the second *)
+(*                                   public entry into compile -- compiles *)
+(*                                   the current settings before it hands  *)
+(*                                   the set-up to the sampler             *)
+(*               "reuse_if_compiled" expected-counterexample variant: an   *)
+(*                                   earlier, non-empty compile is re-used *)
+(* FileRoute     "as_api"            the code: a [Fitting] / [Derive]      *)
+(*                                   input file applied by ParameterParser *)
+(*                                   .setup_optimizer has the effect of    *)
+(*                                   the API calls its keys stand for      *)
+(*               "enable_only"       expected-counterexample variant:      *)
+(*                                   `p:fit = False` does not switch off a *)
+(*                                   parameter that is fitted (by default  *)
+(*                                   or since an earlier call)             *)
+(* Routes.  Every setting reaches the object by the API (one call each) or *)
+(* by an input file.  A file is [fs, ds]: fs a sequence of entries         *)
+(* [p, fit, m, cs, b, f, pr], one per named parameter (`p:fit = fit` is    *)
+(* always written; `p:mode` = m spelled with cs in upper case, "" = no     *)
+(* such key; `p:bounds` = b, `p:factor` = f, <<>> = no such key, at most   *)
+(* one of the two; `p:prior` = pr, None = no key); ds a sequence of        *)
+(* [d, on] (`d:compute = on`).  The sampler is entered by fit(): what it   *)
+(* is handed is the set-up of the settings current at that moment.         *)
 (* Linear numbers.  A boundary may be zero or negative (legal for a        *)
 (* parameter fitted in linear space).  A linear-space number is carried as *)
 (* a code whose integer order is the order of the numbers:                 *)
@@ -95,8 +117,9 @@ EXTENDS Integers, Sequences, FiniteSets, TLC, Json
 
 CONSTANTS Params,        \* sequence of fitting-parameter names, declaration order (model, then observation)
           Derived,       \* sequence of derived-parameter names, declaration order
-          InitSetting,   \* [p -> [fit, mode, lo, hi, raw, slo, shi]]  (raw: the stored spelling is not the lower-case one;
-                         \*  lo, hi: the boundaries the caller named last; slo, shi: the boundaries the object holds)
+          InitSetting,   \* [p -> [fit, mode, lo, hi, raw, slo, shi, sfit]]  (raw: the stored spelling is not the lower-case one;
+                         \*  lo, hi: the boundaries the caller named last; slo, shi: the boundaries the object holds;
+                         \*  fit: the flag the caller named last; sfit: the flag the object holds)
           InitDerived,   \* [d -> BOOLEAN]
           InitValue,     \* [p -> exponent]
           CallParams,    \* the fitting parameters that the generated calls name (subset of Params)
@@ -110,6 +133,8 @@ CONSTANTS Params,        \* sequence of fitting-parameter names, declaration ord
           ModeCalls,     \* set of <<m, cs>>: mode m written with the letters at positions cs in upper case
           InvalidModes,  \* strings that are neither mode in any spelling (set_mode must refuse them)
           PriorTable, ViewSpace, DerivedLookup, ObsMerge, ModeStore, UpdateGuard, BoundaryGuard, UpdateArg,
+          FitEntry, FileRoute,
+          Files,         \* the input files the generated histories apply (set of [fs, ds] records, see above)
           TrackArg,      \* keep the caller's array of the last update_model in the state (arg)
           Record         \* keep the history variable (binding C) or not (exhaustive runs)
 
@@ -150,7 +175,7 @@ ViewCompiled(s, up) == CompiledFrom(TableFrom(up, s), s)
 \* the settings as compile_params reads them: a spelling stored raw is not "log", hence linear
 \* and the boundaries it holds
 AsStored(s) == [p \in PSet |-> [s[p] EXCEPT !.mode = IF s[p].raw THEN "linear" ELSE s[p].mode,
-                                             !.lo = s[p].slo, !.hi = s[p].shi]]
+                                             !.lo = s[p].slo, !.hi = s[p].shi, !.fit = s[p].sfit]]
 \* compile_params is defined: no fitted parameter with a log-space prior (its own, or the default of log mode)
 \* has a boundary that is zero or negative (log10 of it does not exist)
 EffPrior(s, base, p) == IF base[p] # None THEN base[p] ELSE DefaultPrior(s, p)
@@ -186,8 +211,8 @@ SetSetting(p, f, ev) ==
         /\ UNCHANGED <<derivedOn, userPrior, priorTab, compiled, compiledDer, value, arg>>
         /\ Log(ev)
 
-EnableFit(p)  == SetSetting(p, [setting[p] EXCEPT !.fit = TRUE],  [op |-> "enable_fit", p |-> p])
-DisableFit(p) == SetSetting(p, [setting[p] EXCEPT !.fit = FALSE], [op |-> "disable_fit", p |-> p])
+EnableFit(p)  == SetSetting(p, [setting[p] EXCEPT !.fit = TRUE,  !.sfit = TRUE],  [op |-> "enable_fit", p |-> p])
+DisableFit(p) == SetSetting(p, [setting[p] EXCEPT !.fit = FALSE, !.sfit = FALSE], [op |-> "disable_fit", p |-> p])
 SetMode(p, m, cs) == SetSetting(p, [setting[p] EXCEPT !.mode = m, !.raw = (ModeStore = "raw" /\ ~LowerCase(m, cs))],
                                 [op |-> "set_mode", p |-> p, m |-> m, cs |-> cs])
 \* set_boundary stores the pair it is given (either order, any sign), whatever the mode is at that moment
@@ -204,7 +229,7 @@ SetFactorBoundary(p, f) == SetSetting(p, [setting[p] EXCEPT !.lo = value[p] + f[
 \* enable_fit / disable_fit for every parameter: exactly S is fitted afterwards
 Preset(S) ==
         /\ err' = FALSE
-        /\ setting' = [p \in PSet |-> [setting[p] EXCEPT !.fit = (p \in S)]]
+        /\ setting' = [p \in PSet |-> [setting[p] EXCEPT !.fit = (p \in S), !.sfit = (p \in S)]]
         /\ UNCHANGED <<derivedOn, userPrior, priorTab, compiled, compiledDer, value, arg>>
         /\ Log([op |-> "preset", on |-> SelectSeq(Params, LAMBDA p : p \in S)])
 PresetCall == \E S \in SUBSET PSet : Preset(S)
@@ -233,7 +258,9 @@ DisableDerived(d) ==
 CompileDefined == /\ DefinedFor(setting, userPrior)
                   /\ PriorTable = "persist_all" => DefinedFor(setting, priorTab)
 \* (frame conditions first: TLC evaluates the action properties conjunct by conjunct)
-Compile ==
+\* compile_params() and fit() are the two public entries into the compilation: fit() compiles, then hands the
+\* set-up to the sampler (the logged projection of a "fit" event is what the sampler sees when it is entered)
+CompileAs(op) ==
         /\ err' = FALSE
         /\ UNCHANGED <<setting, derivedOn, userPrior, value, arg>>
         /\ CompileDefined
@@ -243,10 +270,37 @@ Compile ==
                \* two passes (model, then observation); tabM is the table after the first pass
                tabM == [p \in PSet |-> IF p \in ObsParams THEN base[p] ELSE tab[p]]
                lost == ObsMerge = "if_table_nonempty" /\ \A p \in PSet : tabM[p] = None
-           IN  /\ priorTab' = IF lost THEN tabM ELSE tab
-               /\ compiled' = CompiledFrom(tab, st)
-        /\ compiledDer' = DerivedFrom(derivedOn)
-        /\ Log([op |-> "compile_params"])
+               reuse == op = "fit" /\ FitEntry = "reuse_if_compiled" /\ Len(compiled) > 0
+           IN  /\ priorTab' = IF reuse THEN priorTab ELSE IF lost THEN tabM ELSE tab
+               /\ compiled' = IF reuse THEN compiled ELSE CompiledFrom(tab, st)
+               /\ compiledDer' = IF reuse THEN compiledDer ELSE DerivedFrom(derivedOn)
+        /\ Log([op |-> op])
+Compile == CompileAs("compile_params")
+Fit     == CompileAs("fit")
+Compiles == Compile \/ Fit
+
+\* an input file applied by ParameterParser.setup_optimizer: the effect of the API calls its keys stand for
+Named(F, p) == \E i \in 1..Len(F.fs) : F.fs[i].p = p
+EntryOf(F, p) == F.fs[CHOOSE i \in 1..Len(F.fs) : F.fs[i].p = p]
+FileSetting(s, val, F) == [p \in PSet |-> IF ~Named(F, p) THEN s[p] ELSE
+    LET e  == EntryOf(F, p)
+        nb == e.b # <<>> \/ e.f # <<>>
+        lo == IF e.b # <<>> THEN e.b[1] ELSE IF e.f # <<>> THEN val[p] + e.f[1] ELSE s[p].lo
+        hi == IF e.b # <<>> THEN e.b[2] ELSE IF e.f # <<>> THEN val[p] + e.f[2] ELSE s[p].hi
+    IN  [s[p] EXCEPT !.fit = e.fit, !.sfit = IF e.fit \/ FileRoute = "as_api" THEN e.fit ELSE @,
+                     !.mode = IF e.m = "" THEN @ ELSE e.m, !.raw = IF e.m = "" THEN @ ELSE FALSE,
+                     !.lo = lo, !.hi = hi, !.slo = IF nb THEN lo ELSE @, !.shi = IF nb THEN hi ELSE @]]
+FilePriors(up, F) == [p \in PSet |-> IF Named(F, p) /\ EntryOf(F, p).pr # None THEN EntryOf(F, p).pr ELSE up[p]]
+File(F) ==
+        /\ err' = FALSE
+        /\ setting' = FileSetting(setting, value, F)
+        /\ userPrior' = FilePriors(userPrior, F)
+        /\ priorTab' = IF PriorTable = "persist_all" THEN FilePriors(priorTab, F) ELSE priorTab
+        /\ derivedOn' = [d \in DSet |-> IF \E i \in 1..Len(F.ds) : F.ds[i].d = d
+                                        THEN F.ds[CHOOSE i \in 1..Len(F.ds) : F.ds[i].d = d].on ELSE derivedOn[d]]
+        /\ UNCHANGED <<compiled, compiledDer, value, arg>>
+        /\ Log([op |-> "file", fs |-> F.fs, ds |-> F.ds])
+FileCall == \E F \in Files : File(F)
 
 \* update_model(vec): entry i is handed to prior i, whose prior() maps it to the model (x or 10^x).
 \* vec[i] is the exponent of the value that reaches the model; the harness passes 10^vec[i] to a
@@ -341,7 +395,8 @@ SettingCall == \E p \in CallParams :
 PriorCall   == \E p \in CallParams, pr \in UserPriors : SetPrior(p, pr)
 DerivedCall == \E d \in DSet : EnableDerived(d) \/ DisableDerived(d)
 UpdateCall  == \E vec \in Vecs : UpdateModel(vec)
-KnownCall   == SettingCall \/ PriorCall \/ DerivedCall \/ Compile \/ UpdateCall \/ WriteBack \/ UpdateSame
+ApiCall     == SettingCall \/ PriorCall \/ DerivedCall \/ Compile \/ UpdateCall \/ WriteBack \/ UpdateSame
+KnownCall   == ApiCall \/ Fit \/ FileCall
 UnknownCall == UnknownFitCall \/ UnknownDerCall
 UpdateWrongCall == \E vec \in WrongVecs : UpdateWrong(vec)
 BadModeCall == \E p \in CallParams, w \in InvalidModes : BadMode(p, w)
@@ -351,19 +406,20 @@ Next == KnownCall \/ RejectedCall
 Spec == Init /\ [][Next]_vars
 
 \* --------------------------------------------------------------- properties
-TypeOK == /\ \A p \in PSet : /\ setting[p].fit \in BOOLEAN /\ setting[p].mode \in {"linear", "log"} /\ ~setting[p].raw
+TypeOK == /\ \A p \in PSet : /\ setting[p].fit \in BOOLEAN /\ setting[p].mode \in {"linear", "log"} /\ ~setting[p].raw /\ setting[p].sfit = setting[p].fit
                              /\ setting[p].slo = setting[p].lo /\ setting[p].shi = setting[p].hi
           /\ \A d \in DSet : derivedOn[d] \in BOOLEAN
           /\ err \in BOOLEAN
 
-\* the compiled set-up is a function of the current settings only
-HistoryIndependent == [][Compile => /\ compiled' = ViewCompiled(setting', userPrior')
+\* the compiled set-up -- by compile_params() or on entry of the sampler by fit() -- is a function of the current
+\* settings only, by whichever route (API / input file) they were made
+HistoryIndependent == [][Compiles => /\ compiled' = ViewCompiled(setting', userPrior')
                                     /\ compiledDer' = DerivedFrom(derivedOn')]_vars
 
 \* fitted names are exactly the enabled ones at the last compile, in declaration order
 OrderIsDeclarationOrder ==
     \A i, j \in 1..Len(compiled) : i < j => PosOf(compiled[i].name) < PosOf(compiled[j].name)
-CompileTakesEnabled == [][Compile => {compiled'[i].name : i \in 1..Len(compiled')} = {p \in PSet : setting[p].fit}]_vars
+CompileTakesEnabled == [][Compiles => {compiled'[i].name : i \in 1..Len(compiled')} = {p \in PSet : setting[p].fit}]_vars
 
 \* name, value, boundary and prior of a fitted parameter are reported in one space
 SpacesAgree == \A i \in 1..Len(compiled) : ViewSp(compiled[i]) = PMode(compiled[i].prior)
@@ -372,7 +428,7 @@ SpacesAgree == \A i \in 1..Len(compiled) : ViewSp(compiled[i]) = PMode(compiled[
 \* observation parameters only, with or without a set_prior)
 ViewsReadable == \A i \in 1..Len(compiled) : priorTab[compiled[i].name] = compiled[i].prior
 \* default priors are those of the mode and bounds at the compile (set_prior entries excepted)
-DefaultsFollowSettings == [][Compile => \A i \in 1..Len(compiled') :
+DefaultsFollowSettings == [][Compiles => \A i \in 1..Len(compiled') :
                                LET c == compiled'[i] IN
                                userPrior[c.name] = None => c.prior = DefaultPrior(setting, c.name)]_vars
 
